@@ -338,11 +338,10 @@ def spell_arg(rng, node, value, forms=None, risky=False):
             choices.append(("long_sep", [b"--" + lb, value]))
     for c in n["short"]:
         cb = c.encode()
-        if len(cb) == 1 or risky:
-            choices.append(("short_eq", [b"-" + cb + b"=" + value]))
+        choices.append(("short_eq", [b"-" + cb + b"=" + value]))
         if not node["adjacent"] and not dashy:
             choices.append(("short_sep", [b"-" + cb, value]))
-        if value and not value.startswith(b"=") and (utf8 or risky) and (len(cb) == 1 or b"=" not in value or risky):
+        if value and not value.startswith(b"=") and (utf8 or risky):
             choices.append(("short_adj", [b"-" + cb + value]))
     if forms:
         choices = [c for c in choices if c[0] in forms] or choices
